@@ -25,7 +25,7 @@ L2_PARAM_VARIANTS = {
 for _v, (_hp, _fitted, _link, _mu) in L2_PARAM_VARIANTS.items():
     contract(
         target=FIT, self_class="L2Cost", variant=f"L2Cost/{_v}",
-        params={"self": "obj:L2Cost", **_hp, "X": "real[n,p]", "y": "none"},
+        params={"self": "obj:L2Cost", **_hp, "self._is_fitted": "bool", "self._X": "any", "X": "real[n,p]", "y": "none"},
         modifies={"self._X": "=X", "self._is_fitted": "=True", "self.sums_": "real[n+1,p]", "self.sums2_": "real[n+1,p]",
                   "self._mean": _fitted["self._mean"]},
         returns="=self",
@@ -57,7 +57,7 @@ for _v, (_hp, _fitted, _link, _mu) in L2_PARAM_VARIANTS.items():
 # ------------------------------------------------------------------------------------------------ CUSUM, L2Saving (direct scores)
 contract(
     target=FIT, self_class="CUSUM", variant="CUSUM",
-    params={"self": "obj:CUSUM", "X": "real[n,p]", "y": "none"},
+    params={"self": "obj:CUSUM", "self._is_fitted": "bool", "self._X": "any", "X": "real[n,p]", "y": "none"},
     modifies={"self._X": "=X", "self._is_fitted": "=True", "self.sums_": "real[n+1,p]"},
     returns="=self",
     ensures={"fitted": "self._is_fitted == True", "data": SAME_X, "sums": "PrefixSum(self.sums_, X)"},
@@ -88,7 +88,7 @@ contract(
 )
 contract(
     target=FIT, self_class="L2Saving", variant="L2Saving",
-    params={"self": "obj:L2Saving", "X": "real[n,p]", "y": "none"},
+    params={"self": "obj:L2Saving", "self._is_fitted": "bool", "self._X": "any", "X": "real[n,p]", "y": "none"},
     modifies={"self._X": "=X", "self._is_fitted": "=True", "self.sums_": "real[n+1,p]"},
     returns="=self",
     ensures={"fitted": "self._is_fitted == True", "data": SAME_X, "sums": "PrefixSum(self.sums_, X)"},
@@ -121,7 +121,7 @@ GVAR_OPT = f"{_LEN} * LOG(2 * PI * {_floor16(_RSSN)}) + {_LEN}"
 
 contract(
     target=FIT, self_class="GaussianVarCost", variant="GaussianVarCost/optim",
-    params={"self": "obj:GaussianVarCost", "self.param": "none", "X": "real[n,p]", "y": "none"},
+    params={"self": "obj:GaussianVarCost", "self.param": "none", "self._is_fitted": "bool", "self._X": "any", "X": "real[n,p]", "y": "none"},
     modifies={"self._X": "=X", "self._is_fitted": "=True", "self.sums_": "real[n+1,p]", "self.sums2_": "real[n+1,p]", "self._param": "none"},
     returns="=self",
     ensures={"fitted": "self._is_fitted == True", "data": SAME_X, "sums": "PrefixSum(self.sums_, X)", "sums2": "PrefixSumSq(self.sums2_, X)"},
@@ -154,7 +154,7 @@ GV_FIXED = {
 for _v, (_pt, _ft, _link, _mi, _vi, _bad) in GV_FIXED.items():
     contract(
         target=FIT, self_class="GaussianVarCost", variant=f"GaussianVarCost/{_v}",
-        params={"self": "obj:GaussianVarCost", "self.param": _pt, "X": "real[n,p]", "y": "none"},
+        params={"self": "obj:GaussianVarCost", "self.param": _pt, "self._is_fitted": "bool", "self._X": "any", "X": "real[n,p]", "y": "none"},
         modifies={"self._X": "=X", "self._is_fitted": "=True", "self.sums_": "real[n+1,p]", "self.sums2_": "real[n+1,p]", "self._param": _ft},
         raises={"ValueError": _bad},
         returns="=self",
